@@ -335,6 +335,33 @@ def sensors_batch(case):
                 mon.close()
                 if fake.ports[-1].is_open:
                     problems.append(("serial-close", "close() left the port open"))
+                # connection life cycle: every port receives exactly the writes made while it was the open one, in order, nothing else
+                m3 = SerM.SerialMonitor(9600, newline=r.choice(["\n", "\r\n"]))
+                n_before = len(fake.ports)
+                expect = {}            # port index -> list of payloads
+                cur = None
+                for step in range(r.randint(3, 10)):
+                    act = r.choice(["write", "write", "write", "connect", "close"])
+                    if act == "connect":
+                        m3.connect(r.choice(["COM9", "/dev/ttyACM1"]))
+                        cur = len(fake.ports) - 1
+                        expect.setdefault(cur, [])
+                    elif act == "close":
+                        m3.close()
+                        cur = None
+                    else:
+                        v = r.choice(["early", 42, "", "x y", 3.5])
+                        ret = m3.write(v)
+                        ops += 1
+                        if ret != str(v):
+                            problems.append(("serial-write", f"write({v!r}) returned {ret!r}"))
+                        if cur is not None:
+                            expect[cur].append((str(v) + m3.newline).encode("utf-8"))
+                for pi, want_payloads in expect.items():
+                    if fake.ports[pi].written != want_payloads:
+                        problems.append(("serial-lifecycle", f"a port opened by connect() received {fake.ports[pi].written!r}; the writes made while it was open were {want_payloads!r}"))
+                if len(fake.ports) - n_before != len(expect):
+                    problems.append(("serial-lifecycle", f"{len(fake.ports) - n_before} ports opened for {len(expect)} connect() calls"))
                 # unconnected monitor: write returns the text and sends nothing
                 m2 = SerM.SerialMonitor(9600)
                 if m2.write(12) != "12":
